@@ -214,6 +214,8 @@ struct Out {
     line: usize,
     regions: Vec<Region>,
     closure_items: Vec<String>,
+    /// reachability probes (thorough tier): `assert(false)` at every function entry and loop-body start must be REFUTED
+    probe: bool,
 }
 impl Out {
     fn push(&mut self, s: &str) {
@@ -464,6 +466,12 @@ fn emit_fn(d: &FnDirective, srcs: &mut Sources, out: &mut Out, stats: &mut norm:
             let lead: String = line.chars().take_while(|c| c.is_whitespace()).collect();
             seg_start = out.cur();
             out.push(&format!("{}{{", lead));
+            if out.probe {
+                let s0 = out.cur();
+                out.push(&format!("{}    proof {{ assert(false); }}", lead));
+                out.regions.push(Region { start: s0, end: out.line, kind: "probe".into(), item: item_name.clone(), clause: format!("loop{}", k), props: vec![] });
+                seg_start = out.cur();
+            }
             i += 2;
             continue;
         }
@@ -502,6 +510,15 @@ fn emit_fn(d: &FnDirective, srcs: &mut Sources, out: &mut Out, stats: &mut norm:
             for e in &d.entry {
                 out.push(&format!("{}{}", ind1, e.trim()));
             }
+        }
+        if i == 0 && out.probe {
+            if out.cur() > seg_start {
+                out.regions.push(Region { start: seg_start, end: out.line, kind: "fn-body".into(), item: item_name.clone(), clause: String::new(), props: d.body_props.clone() });
+            }
+            let s0 = out.cur();
+            out.push(&format!("{}proof {{ assert(false); }}", ind1));
+            out.regions.push(Region { start: s0, end: out.line, kind: "probe".into(), item: item_name.clone(), clause: "entry".into(), props: vec![] });
+            seg_start = out.cur();
         }
         i += 1;
     }
@@ -629,7 +646,7 @@ fn main() {
     }
     let mut lines: Vec<String> = Vec::new();
     expand(&PathBuf::from(need("template")), &mut lines, 0, &[]);
-    let mut out = Out { text: String::new(), line: 0, regions: Vec::new(), closure_items: Vec::new() };
+    let mut out = Out { text: String::new(), line: 0, regions: Vec::new(), closure_items: Vec::new(), probe: std::env::var("ZX_PROBE").map(|v| v == "1").unwrap_or(false) };
     let mut stats = norm::Stats::default();
     let mut cur_fn: Option<(FnDirective, usize)> = None;
     // section within fn directive
@@ -696,6 +713,8 @@ fn main() {
                     d.before.push((pfx, vec![]));
                     sec = Sec::Before(d.before.len() - 1);
                 }
+                // ghost text carries the function's own tags unless it is tagged itself
+                cur_tag = (String::new(), vec![]);
                 continue;
             }
             if let Some(rest) = dir.strip_prefix("after ") {
@@ -705,10 +724,12 @@ fn main() {
                     d.before.push((format!("AFTER:{}", pfx), vec![]));
                     sec = Sec::Before(d.before.len() - 1);
                 }
+                cur_tag = (String::new(), vec![]);
                 continue;
             }
             if dir == "tail" {
                 sec = Sec::Tail;
+                cur_tag = (String::new(), vec![]);
                 continue;
             }
             if dir == "attr" {
